@@ -418,7 +418,7 @@ pub fn run(tier: Tier) -> i32 {
         }
     }
     let mut hist: Vec<(Vec<Case>, bool)> = vec![];
-    let max_len = tier.pick(2usize, 3usize);
+    let max_len = tier.pick(2usize, 4usize);
     for len in 2..=max_len {
         let total = alpha.len().pow(len as u32);
         for mut i in 0..total {
